@@ -1,5 +1,6 @@
 from contracts.concat import CONTRACTS as _C
-CONTRACTS = list(_C)
+from contracts.removal import ConcatRemoveChildren, ConcatRemoveHole
+CONTRACTS = list(_C) + [ConcatRemoveChildren, ConcatRemoveHole]
 
 MANIFEST = {
     "category": "proof",
